@@ -34,7 +34,7 @@ CLAIMS = {
    text="Free-running concurrent histories of the real code (2-3 writers/readers on hot keys plus a goroutine running Compact, Sync, Backup, scans, Count, FileSize, Metrics, optionally the background workers; all four file systems) and hook-forced interleavings with compaction are recorded with real-time-ordered invocation/response events; TLC searches for linearization points against the sequential map of Layer A and rejects a history only if no order explains the results. Quiescent read-backs at barriers and after the final clean reopen are compared exactly.",
    note="Trusts TLC and the event stamping (one mutex around event emission; inv before the call, ret after). Bounded concurrency (<= 4 overlapping calls) keeps the search finite in practice.", ref="6 (C07)"),
  "C10": dict(cat="model_checking", tech="Layer-A trace validation of -race stress recordings incl. Close races; race/fault/stuck/leak observations are events no spec action accepts",
-   text="The harness is built with the Go race detector and runs workers, a maintenance goroutine and the background workers on fs.Mem, fs.OS and fs.OSMMap, with Close fired at random points; panics/faults, 20 s without progress, goroutines left inside pogreb after Close, race reports and a dying process enter the recording as events that Layer A never accepts. TLC additionally validates that calls overlapping Close fail or have a legal linearized effect and that the directory reopens with exactly the linearized contents.",
+   text="The harness is built with the Go race detector and runs workers, a maintenance goroutine and the background workers on fs.Mem, fs.OS and fs.OSMMap, with Close fired at random points; panics/faults, 60 s without progress, goroutines left inside pogreb after Close, race reports and a dying process enter the recording as events that Layer A never accepts. TLC additionally validates that calls overlapping Close fail or have a legal linearized effect and that the directory reopens with exactly the linearized contents.",
    note="Data races and memory faults are outside TLA+: they are observed by the race detector / fault handler on the schedules run; completeness is that of those schedules. Deadlock freedom likewise by watchdog on these schedules.", ref="6 (C10), 8"),
  "C02": dict(cat="model_checking", tech="TLA+ Layer-A trace validation (TLC) of session-cut histories incl. fs.OS/fs.OSMMap alternation; TLC model check of spec/Wal.tla (Close/OpenClean)",
    text="Random histories over colliding keys are cut into sessions by Close/Open at random positions on all four file systems, half of them alternating fs.OS and fs.OSMMap on one directory; every reopen is observed (contents, Count, Has, Items, recovery indicator) and validated by TLC against Layer A's OpenClean. The Wal model checks Close/OpenClean with persisted metadata exhaustively within its bounds; the pinned 'reuse any unfilled segment' config must be refuted.",
